@@ -477,6 +477,10 @@ def nodeRefStep (r : NRef) (t : List String) (obs : String) : NRef × String :=
           -- C15: "in a mesh with stable membership on a delivering network no healthy peer is ever timed out"
           else if r.stable && before.peers.any (fun q => q.ready && !(after.peers.any (fun q' => q'.addr = q.addr))) then
             some s!"C15 a healthy peer was timed out although membership is stable and the network delivers ({(before.peers.filter (fun q => q.ready && !(after.peers.any (fun q' => q'.addr = q.addr)))).map (·.addr)})"
+          -- C15: "removed peers are re-dialled": a peer that housekeeping removes because its timeout has passed is dialled again at once (a new attempt for its address)
+          else if before.peers.any (fun q => q.ready && q.timeout < r.now && !(after.peers.any (fun q' => q'.addr = q.addr)) &&
+              !after.own.contains q.addr && !after.pending.contains q.addr) then
+            some s!"C15 a peer removed by its timeout was not dialled again ({(before.peers.filter (fun q => q.ready && q.timeout < r.now && !(after.peers.any (fun q' => q'.addr = q.addr)) && !after.pending.contains q.addr)).map (·.addr)})"
           -- C05: an attempt that has used up its retry budget is given up at the next tick ("handshake retry horizon"); nothing of it stays behind
           else if before.pendingRetries.any (fun (a, k) => k ≥ Generated.MAX_FAILED_RETRIES &&
               after.pendingRetries.any (fun (a', k') => a' = a && k' ≥ Generated.MAX_FAILED_RETRIES)) then
